@@ -72,6 +72,12 @@ CHECKS = {
   text='Generated modules of up to three helper functions and a caller (callees with and without their own context, called inside nested with-blocks, loops, comprehensions, if-expressions and short-circuit operands, as arguments of other calls, with list arguments they mutate, with local names clashing with the caller\'s, chains of depth 3, multi-return callees and calls in while conditions that must be refused) are transformed by inline (all sites recursive / one level / one level twice, random single sites, restricted to one callee), monomorphize (two pinned caller contexts, pinned argument types), close, lift_context and their compositions; the original is evaluated "in the corresponding way" (for monomorphize: called with ctx=<pinned context>, the result called without) on 8 inputs under several caller contexts including REAL and compared structurally.',
   ref='DESIGN.md 1.5, 2/C09',
   note='Trusted: the original program\'s own result. Documented refusals (RuntimeError, ValueError, CallGraphError, TransformDeclined, TransformReferenceError) are counted, not judged.'),
+ 'C15': dict(
+  technique='bounded enumeration of program skeletons compiled by the real front end; accepted ones executed on every combination of branch outcomes and trip counts; the Python runtime\'s unbound-variable detection and a definite-assignment judgement as oracles',
+  category='exploration',
+  text='Program skeletons over assignments, tuple assignments, uses, if/else, one-armed if, for over a list or a range, while with a flag, with / with-as, comprehensions and returns (names a, b, t; up to 3 top-level statements and nesting 2 in quick, 4 and 3 in thorough; uses biased towards names assigned anywhere earlier, loop targets and with-aliases included) are written to source files and decorated by the real @fp.fpy. Each construct\'s condition is a distinct boolean argument and each loop iterable a distinct list argument, so every accepted skeleton is run on all combinations of branch outcomes and trip counts 0/1/2 (capped at 64): UnboundLocalError, NameError, a KeyError on an identifier from the def-use machinery, or a None result is a violation. Independently a 40-line definite-assignment judgement written from the language guide flags accepted programs that read a loop-/branch-introduced name or a loop target afterwards, or fall off the end.',
+  ref='DESIGN.md 2/C15',
+  note='Trusted: CPython\'s unbound-local detection; the judgement in vf/checks/c15.py (a path that has returned constrains nothing, as the checker documents). Over-rejection is not judged. Other exceptions (TypeError from adding a context alias) are irrelevant and ignored.'),
 }
 
 NOT_YET = {}
